@@ -23,7 +23,15 @@ def run(tier):
         'targets without a query; with a query both trimmed and untrimmed tails are accepted)',
     ]
     b = core.compile_c('C20', 'h_c20', ['harness/C20/h_c20.c', core.repo_src('proto', 'http.c')])
+    # keep the violation with the smallest case index first, so that the replay file does not depend on
+    # which shard finished first (core keeps the first 8 it happens to ingest)
+    allv = {}
+    rep.add_violation = lambda target, clause, index, desc, config='': \
+        allv.setdefault((target, clause), []).append((str(index), desc, config))
     core.run_sharded(rep, b, tier)
+    for k, l in allv.items():
+        l.sort(key=lambda x: (int(x[0]) if x[0].isdigit() else 0, x[1]))
+        rep.viol[k] = l[:8]
     sums = {}
     for n in rep.notes:
         if '=' in n:
